@@ -185,7 +185,7 @@ def run_check(mod, args):
     if args.digest_only:
         for task, res in zip(tasks, results):
             if res is not None and "digest" in res:
-                print(f"DIGEST {task.get('run', '?')} {res['digest']}")
+                print(f"DIGEST {task.get('run', '?')} {res['digest']} {res.get('odigest', res['digest'])}")
     all_digest = hashlib.sha256("".join(digests).encode()).hexdigest()[:16]
     print(f"[{prop}] {nrun} runs executed ({skipped} tasks skipped by wall cap), "
           f"{len(viols)} raw violations, run-digest {all_digest}, {time.time() - t0:.1f}s")
